@@ -19,6 +19,10 @@ func init() {
 	// Observed on the unchanged tree: a failing KeysPrefix makes ListSplits/ListDiamonds return a short list
 	// with a nil error (mergeKeys drops the error of its input batch), a failing Get can leave the listing hung.
 	Register(&Scenario{Prop: "C07", Name: "listing-faulty", Strict: false, Quick: 0, Thorough: 0, Run: func(rc *RunCtx) *simkit.Violation { return runC07(rc, true, false) }})
+	// one store error at a chosen call (often the k-th page of keys) of a listing of repositories, bundles or labels: the
+	// listing may fail, but one that returns success is still complete, exact and ordered. (Diamond and split listings swallow
+	// store errors - see the observation in DESIGN.md - and are left out: C07 does not quantify over store faults.)
+	Register(&Scenario{Prop: "C07", Name: "listing-one-store-error", Strict: false, Quick: 2, Thorough: 3, Run: func(rc *RunCtx) *simkit.Violation { c07Restricted = true; defer func() { c07Restricted = false }(); return runC07(rc, true, false) }})
 	Register(&Scenario{Prop: "C07", Name: "listing-large", Strict: true, Quick: 1, Thorough: 2, Run: func(rc *RunCtx) *simkit.Violation { return runC07(rc, false, true) }})
 }
 
@@ -140,7 +144,11 @@ func seedDiamond(d *DM, t *simkit.Tape, repo string, nSplits int, large bool) *m
 // VMetOrMeta is the bucket diamonds and splits live in (the versioned metadata store).
 func (d *DM) VMetOrMeta() *simkit.Backend { return d.VMet }
 
+// c07Restricted: the faulty run places one error per listing and skips diamonds and splits
+var c07Restricted bool
+
 func runC07impl(rc *RunCtx, faulty, large bool) *simkit.Violation {
+	restricted := c07Restricted
 	const prop = "C07"
 	w := rc.W
 	t := w.W
@@ -259,6 +267,21 @@ func runC07impl(rc *RunCtx, faulty, large bool) *simkit.Violation {
 			w.Faults.Budget = 2
 			w.Stats.Faults["F-ERR"] = 0
 		}
+		if restricted {
+			w.Faults = &simkit.FaultCfg{}
+			if t.Bool(2, 3) {
+				k, n := t.Pick(0, 1, 1, 2, 2, 3, 5), 0
+				w.Faults.Plan = []*simkit.Planned{{Client: "lister", Kind: simkit.FErr, Match: func(c *simkit.Call) bool {
+					if c.Op != simkit.OpKeysPrefix && c.Op != simkit.OpKeys {
+						return false
+					}
+					n++
+					return n-1 == k
+				}}}
+			} else {
+				w.Faults.Plan = []*simkit.Planned{{Client: "lister", Kind: simkit.FErr, Any: true, Nth: cl.Calls + t.Range(0, 12)}}
+			}
+		}
 		tk, v := doOp(prop, w, cl, name, fn)
 		if v != nil && v.Class == "deadlock" && faulty && w.Stats.Faults["F-ERR"] > 0 {
 			// a listing that never returns after a store error is not a wrong listing: outside the
@@ -353,6 +376,9 @@ func runC07impl(rc *RunCtx, faulty, large bool) *simkit.Violation {
 			if v := cmp("ListLabels", desc, got, sortedKeys(m.labels[r]), false, tk.Err); v != nil {
 				return v
 			}
+		}
+		if restricted {
+			continue
 		}
 		// diamonds
 		{
